@@ -169,6 +169,14 @@ def image_bytes(inp):
 
 # ---------------------------------------------------------------- synthetic rasters
 def random_raster_input(r, tier):
+    for _ in range(30):
+        inp = _random_raster_input(r, tier)
+        if raster_ok(inp):
+            return inp
+    return inp
+
+
+def _random_raster_input(r, tier):
     from . import tissue as TS
     # C15's input domain: every ridge longer than 8 pixels (0.3 lattice units at >= 28 px per unit)
     spec = TS.random_spec(r, max_side=4, kmax=0, min_ridge=0.3)
@@ -183,6 +191,34 @@ def random_raster_input(r, tier):
         inp["rescale"] = r.choice([[2.0, 2.0], [0.5, 0.25], [3.0, 1.0]])
         inp["offset"] = r.choice([[0, 0], [100, 50], [-20, 700]])
     return inp
+
+
+def raster_ok(inp, min_gap=6):
+    """Pixel-level form of C15's input domain ("all ridges longer than 8 pixels"): the junction pixel
+    clusters of the thinned raster (white pixels with three or more white 8-neighbours, grouped when they
+    touch) must be at least min_gap pixels apart.  Rasterising and thinning can otherwise leave a two- or
+    three-pixel link between two junction clusters, which the parser's artefact heuristics take apart."""
+    import cv2
+    a = (raster_array(inp) > 0).astype(np.uint8)
+    ker = np.ones((3, 3), np.float32)
+    ker[1, 1] = 0
+    nb = cv2.filter2D(a.astype(np.float32), -1, ker, borderType=cv2.BORDER_CONSTANT)
+    junc = ((a > 0) & (nb >= 3)).astype(np.uint8)
+    n, lab, stats, cent = cv2.connectedComponentsWithStats(junc, connectivity=8)
+    if n <= 2:
+        return True
+    ys, xs = np.nonzero(junc)
+    labs = lab[ys, xs]
+    pts = np.stack([xs, ys], axis=1).astype(np.float32)
+    for i in range(1, n):
+        pi = pts[labs == i]
+        po = pts[labs > i]
+        if len(po) == 0:
+            continue
+        d = np.abs(pi[:, None, :] - po[None, :, :]).max(axis=2)   # Chebyshev distance
+        if d.min() < min_gap:
+            return False
+    return True
 
 
 def raster_array(inp):
